@@ -130,6 +130,10 @@ def main():
     seed = int(os.environ.get("VERIF_SEED", "0") or 0)
     os.environ.setdefault("PYTHONHASHSEED", "0")
     t0 = time.time()
+    # a check that does not finish is a machinery failure, not a verdict: dump every thread's stack and exit 2
+    import faulthandler
+    deadline = int(os.environ.get("VERIF_DEADLINE_S", "2700" if a.tier == "quick" else "43200"))
+    faulthandler.dump_traceback_later(deadline, exit=True)
     import properties
     try:
         handler = properties.HANDLERS[a.pid]
